@@ -21,6 +21,40 @@ theorem noHdr_nil : NoHdr [] := fun _ h => by cases h
 
 theorem nomem {α : Type} {P : Prop} {f : α} (h : f ∈ ([] : List α)) : P := by cases h
 
+/-! ## the frames as they go out (`wireFrames`): only queued HEADERS frames are expanded -/
+
+/-- frames that are not part of a header block go out as they are -/
+theorem wireFrames_noHdr (fs : List OutFrame) : ∀ c : Conn, NoHdr fs → wireFrames c fs = fs := by
+  induction fs with
+  | nil => intro c _; rfl
+  | cons f fs ih =>
+    intro c h
+    have hf := h f (List.mem_cons_self ..)
+    have ht : NoHdr fs := fun x hx => h x (List.mem_cons_of_mem _ hx)
+    cases f with
+    | headers sid es fl => cases hf
+    | hfrag sid es len => cases hf
+    | cont sid eh len fl => cases hf
+    | data sid len es => simp only [wireFrames]; rw [ih c ht]
+    | rst sid code => simp only [wireFrames]; rw [ih c ht]
+    | settingsAck => simp only [wireFrames]; rw [ih c ht]
+    | ping a d => simp only [wireFrames]; rw [ih c ht]
+    | windowUpdate sid inc => simp only [wireFrames]; rw [ih c ht]
+
+/-- a queued HEADERS frame followed by frames outside header blocks: the block's frames, then those frames -/
+theorem wireFrames_headers (c : Conn) (sid : Nat) (es : Bool) (fl : List (Bytes × Bytes)) (rest : List OutFrame)
+    (h : NoHdr rest) :
+    wireFrames c (.headers sid es fl :: rest) =
+      headerFrames sid es fl (blockLens (frameStep c) (encodeHeaders c fl).2) ++ rest := by
+  simp only [wireFrames]
+  rw [wireFrames_noHdr rest _ h]
+
+/-- the frames of one header block: the first opens the stream (HEADERS, whole or cut), the others are its CONTINUATIONs -/
+def BlockOf (sid : Nat) (es : Bool) (fl : List (Bytes × Bytes)) (hs : List OutFrame) : Prop :=
+  ∃ l ls, hs = headerFrames sid es fl (l :: ls)
+
+theorem blockLens_cons (step n : Nat) : ∃ l ls, blockLens step n = l :: ls := ⟨_, _, rfl⟩
+
 /-! ## what the write loop writes for a body -/
 
 theorem dataFrames_data (sid step : Nat) : ∀ (fuel n : Nat) (e : Bool), ∀ f ∈ dataFrames sid step fuel n e,
@@ -230,10 +264,20 @@ theorem writeRequest_spec (c : Conn) (r : ReqSpec) :
 
 /-! ## one step -/
 
-theorem afterWrites_frames (c : Conn) (fs fs' : List OutFrame) (h : (afterWrites c fs).2 = .frames fs') : fs' = fs := by
+theorem afterWrites_frames (c : Conn) (fs fs' : List OutFrame) (h : (afterWrites c fs).2 = .frames fs') :
+    fs' = wireFrames c fs := by
   rcases afterWrites_cases c fs with ⟨e, s, b, hh⟩ | ⟨e, s, hh⟩
   · rw [hh] at h; cases h; rfl
   · rw [hh] at h; cases h
+
+theorem afterWrites_frames_noHdr (c : Conn) (fs fs' : List OutFrame) (h : (afterWrites c fs).2 = .frames fs')
+    (hn : NoHdr fs) : fs' = fs := by
+  rw [afterWrites_frames c fs fs' h, wireFrames_noHdr fs c hn]
+
+/-- END_STREAM on a request's HEADERS: it has no body -/
+def wrEndStream (r : ReqSpec) : Bool := !(match r.body with | .none => false | _ => true)
+
+theorem wrHeaders_eq (c : Conn) (r : ReqSpec) : wrHeaders c r = .headers c.nextID (wrEndStream r) (requestFields r) := rfl
 
 /-- GOAWAY is never taken back; `stateClosed` implies it; no HEADERS frame is ever queued for the write loop -/
 theorem step_ctl (c : Conn) (h : Inv c) (ev : Event) :
@@ -306,13 +350,16 @@ theorem step_ctl (c : Conn) (h : Inv c) (ev : Event) :
   | cut => rw [step_cut]; split; exact ofCtl _ (Ctl.refl c); exact ofCtl _ (ctl_dieWith _ _)
   | failwrite n => rw [step_failwrite]; split; exact ofCtl _ (Ctl.refl c); exact ofCtl _ ⟨rfl, rfl, rfl, rfl, rfl, id⟩
 
-/-- **which steps write HEADERS**: either the step leaves `nextID` alone and writes no HEADERS frame, or its event is a
-request that `CanOpenStream` admits on a live connection: `nextID` moves up by 2 and, if the step's writes reach the
-transport, the first frame written is that request's HEADERS on the old `nextID` and nothing else written is a HEADERS -/
+/-- **which steps write a header block**: either the step leaves `nextID` alone and writes no frame of a header block
+(HEADERS, cut HEADERS, CONTINUATION), or its event is a request that `CanOpenStream` admits on a live connection: `nextID`
+moves up by 2 and, if the step's writes reach the transport, they begin with the frames of that request's header block on
+the old `nextID` (`headerFrames`: one HEADERS frame, or a HEADERS frame without END_HEADERS and its CONTINUATION frames, in
+a row) and nothing else written belongs to a header block -/
 theorem step_frames_spec (c : Conn) (h : Inv c) (hq : NoHdr c.outQ) (ev : Event) :
     ((step c ev).1.nextID = c.nextID ∧ ∀ fs, (step c ev).2 = .frames fs → NoHdr fs) ∨
     (∃ r, ev = .req r ∧ canOpenStream c = true ∧ c.dead = false ∧ (step c ev).1.nextID = c.nextID + 2 ∧
-      ∀ fs, (step c ev).2 = .frames fs → ∃ rest, fs = wrHeaders c r :: rest ∧ NoHdr rest) := by
+      ∀ fs, (step c ev).2 = .frames fs →
+        ∃ blk rest, fs = blk ++ rest ∧ BlockOf c.nextID (wrEndStream r) (requestFields r) blk ∧ NoHdr rest) := by
   cases ev with
   | read tag =>
     left
@@ -330,14 +377,18 @@ theorem step_frames_spec (c : Conn) (h : Inv c) (hq : NoHdr c.outQ) (ev : Event)
         · left
           refine ⟨by rw [afterWrites_nextID, drain_nextID, hn]; rfl, ?_⟩
           intro fs hf
-          rw [afterWrites_frames _ _ _ hf, h2]
+          rw [afterWrites_frames_noHdr _ _ _ hf (by rw [h2]; exact hqw), h2]
           exact hqw
         · right
           refine ⟨r, rfl, hc, hd', by rw [afterWrites_nextID, drain_nextID, hn]; rfl, ?_⟩
           intro fs hf
-          rw [afterWrites_frames _ _ _ hf, h2]
-          refine ⟨rest ++ (drain (writeRequest (withReq c r.tag) r).1).2, rfl, NoHdr.append ?_ hqw⟩
-          intro f hf'; obtain ⟨k, b, e⟩ := hr f hf'; rw [e]; rfl
+          have hrest : NoHdr (rest ++ (drain (writeRequest (withReq c r.tag) r).1).2) := by
+            refine NoHdr.append ?_ hqw
+            intro f hf'; obtain ⟨k, b, e⟩ := hr f hf'; rw [e]; rfl
+          rw [afterWrites_frames _ _ _ hf, h2, List.cons_append, wrHeaders_eq, wireFrames_headers _ _ _ _ _ hrest]
+          obtain ⟨l, ls, e⟩ := blockLens_cons (frameStep (drain (writeRequest (withReq c r.tag) r).1).1)
+            (encodeHeaders (drain (writeRequest (withReq c r.tag) r).1).1 (requestFields r)).2
+          exact ⟨_, _, rfl, ⟨l, ls, by rw [e]; rfl⟩, hrest⟩
   | bytes b =>
     left
     rw [step_bytes]; split
@@ -361,7 +412,7 @@ theorem step_frames_spec (c : Conn) (h : Inv c) (hq : NoHdr c.outQ) (ev : Event)
             · exact ⟨(dieWith_nextID _ _).trans hn, fun fs hf => by cases hf⟩
             · refine ⟨by rw [afterWrites_nextID, drain_nextID, hn], ?_⟩
               intro fs hf
-              rw [afterWrites_frames _ _ _ hf]
+              rw [afterWrites_frames_noHdr _ _ _ hf (drain_out _ hq1)]
               exact drain_out _ hq1
   | timeout tag =>
     left
@@ -380,15 +431,63 @@ theorem step_frames_spec (c : Conn) (h : Inv c) (hq : NoHdr c.outQ) (ev : Event)
           · exact ⟨takeReq_nextID _ _, fun fs hf => by cases hf⟩
           · refine ⟨by rw [afterWrites_nextID, takeReq_nextID]; rfl, ?_⟩
             intro fs hf
-            rw [afterWrites_frames _ _ _ hf]
-            intro f hf'
-            simp only [List.mem_singleton] at hf'
-            rw [hf']; rfl
+            have hn1 : NoHdr [OutFrame.rst r.sid Gen.c_StreamCanceled] := by
+              intro f hf'
+              simp only [List.mem_singleton] at hf'
+              rw [hf']; rfl
+            rw [afterWrites_frames_noHdr _ _ _ hf hn1]
+            exact hn1
   | close => left; rw [step_close]; split; exact ⟨rfl, fun fs hf => by cases hf⟩; exact ⟨dieWith_nextID _ _, fun fs hf => by cases hf⟩
   | cut => left; rw [step_cut]; split; exact ⟨rfl, fun fs hf => by cases hf⟩; exact ⟨dieWith_nextID _ _, fun fs hf => by cases hf⟩
   | failwrite n =>
     left; rw [step_failwrite]; split
     · exact ⟨rfl, fun fs hf => by cases hf⟩
     · exact ⟨rfl, fun fs hf => by cases hf; exact noHdr_nil⟩
+
+/-! ## CONTINUATION frames are contiguous -/
+
+/-- every CONTINUATION frame of the list directly follows a HEADERS frame without END_HEADERS or a CONTINUATION frame of
+the same stream (`prev`: the stream of the frame before, if that was one of these) -/
+def contAfter : Option Nat → List OutFrame → Bool
+  | _, [] => true
+  | prev, .cont sid _ _ _ :: fs => prev == some sid && contAfter (some sid) fs
+  | _, .hfrag sid _ _ :: fs => contAfter (some sid) fs
+  | _, _ :: fs => contAfter none fs
+
+theorem contAfter_noHdr (rest : List OutFrame) (h : NoHdr rest) : ∀ p, contAfter p rest = true := by
+  induction rest with
+  | nil => intro p; rfl
+  | cons f fs ih =>
+    intro p
+    have hf := h f (List.mem_cons_self ..)
+    have := ih (fun x hx => h x (List.mem_cons_of_mem _ hx)) none
+    cases f <;> first | (cases hf; done) | simpa [contAfter] using this
+
+theorem contAfter_conts (sid : Nat) (fl : List (Bytes × Bytes)) (rest : List OutFrame) (h : NoHdr rest) (ls : List Nat) :
+    contAfter (some sid) (contFrames sid fl ls ++ rest) = true := by
+  induction ls with
+  | nil => exact contAfter_noHdr rest h _
+  | cons l ls ih => simp only [contFrames, List.cons_append, contAfter, beq_self_eq_true, Bool.true_and]; exact ih
+
+theorem contAfter_block {sid : Nat} {es : Bool} {fl : List (Bytes × Bytes)} {blk rest : List OutFrame}
+    (hb : BlockOf sid es fl blk) (h : NoHdr rest) (p : Option Nat) : contAfter p (blk ++ rest) = true := by
+  obtain ⟨l, ls, rfl⟩ := hb
+  simp only [headerFrames]
+  split
+  · rename_i he
+    have : ls = [] := by simpa using he
+    subst this
+    simp only [contFrames, List.cons_append, List.nil_append, contAfter]
+    exact contAfter_noHdr rest h _
+  · simp only [List.cons_append, contAfter]
+    exact contAfter_conts sid fl rest h ls
+
+/-- in the output of any step, CONTINUATION frames only continue the header block just begun -/
+theorem step_contiguous (c : Conn) (h : Inv c) (hq : NoHdr c.outQ) (ev : Event) (fs : List OutFrame)
+    (ho : (step c ev).2 = .frames fs) : contAfter none fs = true := by
+  rcases step_frames_spec c h hq ev with ⟨_, hf⟩ | ⟨r, _, _, _, _, hf⟩
+  · exact contAfter_noHdr fs (hf fs ho) _
+  · obtain ⟨blk, rest, e, hb, hr⟩ := hf fs ho
+    rw [e]; exact contAfter_block hb hr _
 
 end H2.Client
